@@ -53,7 +53,7 @@ class TG:
         if k == "var":
             return "{{ %s }}" % self.expr()
         if k == "if":
-            e = "{%% if %s %%}%s" % (self.expr(), self.body(d - 1))
+            e = "{%% if (%s) %%}%s" % (self.expr(), self.body(d - 1))  # parenthesised: `if` takes no bare conditional expression
             if r.random() < 0.5:
                 e += "{% else %}" + self.body(d - 1)
             return e + "{% endif %}"
